@@ -625,13 +625,21 @@ def execute(plan):
                 a0 = arrays[op["arr"]]
                 if a0.dtype.kind in "fc" and a0.shape[0] == a0.shape[1]:
                     m0 = a0.shape[0]
-                    w = pr.Wavefront(np.array(a0, copy=True), op["wvl"], op["dx"], space="pupil")
-                    w2 = w.focus_fixed_sampling(op["z"], op["odx"], op["out"], shift=tuple(op["shift"]), method=op["method"])
-                    # the object that came out of a propagation, propagated on with default arguments ...
-                    back1 = np.asarray(w2.unfocus_fixed_sampling(op["z"], op["dx"], m0, method=op["method"]).data)
-                    # ... against a new Wavefront holding the same field
-                    fresh = pr.Wavefront(np.array(w2.data, copy=True), w2.wavelength, w2.dx, space="psf")
-                    back2 = np.asarray(fresh.unfocus_fixed_sampling(op["z"], op["dx"], m0, method=op["method"]).data)
+                    try:
+                        w = pr.Wavefront(np.array(a0, copy=True), op["wvl"], op["dx"], space="pupil")
+                        w2 = w.focus_fixed_sampling(op["z"], op["odx"], op["out"], shift=tuple(op["shift"]), method=op["method"])
+                        # the object that came out of a propagation, propagated on with default arguments ...
+                        back1 = np.asarray(w2.unfocus_fixed_sampling(op["z"], op["dx"], m0, method=op["method"]).data)
+                        # ... against a new Wavefront holding the same field
+                        fresh = pr.Wavefront(np.array(w2.data, copy=True), w2.wavelength, w2.dx, space="psf")
+                        back2 = np.asarray(fresh.unfocus_fixed_sampling(op["z"], op["dx"], m0, method=op["method"]).data)
+                    except Exception as e:
+                        # these are ordinary calls inside the quantifier: one that raises has returned no answer
+                        violations.append({"oracle": "raised", "step": i, "route": op["method"], "exc": type(e).__name__,
+                                           "msg": str(e)[:200], "feat": ["wavefront_chain"]})
+                        ev["out"] = "raised:" + type(e).__name__
+                        events.append(ev)
+                        continue
                     sc = max(float(np.abs(back2).max()), 1e-300) if back2.size else 1.0
                     lim = (TOL32 if (prec == 32 or spec_is32(plan["arrays"][op["arr"]])) else 1e-9) * sc
                     if back1.shape != back2.shape or not bool(np.all(np.abs(back1 - back2) <= lim)):
